@@ -31,6 +31,7 @@ def shards(tier):
         {"name": "rand.np.interp", "mode": "interp", "backend": "np", "fn": "rand", "n": 40 if q else 1000},
         {"name": "shadow.np.jit", "mode": "jit", "backend": "np", "fn": "shadow", "n": 120 if q else 6000},
         {"name": "shadow.np.interp", "mode": "interp", "backend": "np", "fn": "shadow", "n": 30 if q else 800},
+        {"name": "live.np.jit", "mode": "jit", "backend": "np", "fn": "live", "n": 40 if q else 2500},
     ]
     if not q:
         for k in range(4):
@@ -219,3 +220,25 @@ def zrow(a, N):
     g = np.zeros(2 * N, dtype=np.int64)
     g[2 * a + 1] = 1
     return g
+
+
+def run_live(shard, rec, B):
+    """samples / density-matrix expansions re-asked of one live state object after every in-place operation of a history."""
+    from .. import live
+    rng = gen.rng_for(rec)
+    for t in range(shard["n"]):
+        N = int(rng.integers(1, 5))
+
+        def query(S, G, hist, step):
+            cg, _ = O.canon_group([g for g, _ in G.gens], [p for _, p in G.gens])
+            case = {"N": N, "history": hist[-6:]}
+            ok, L = rec.attempt("live.sample", case, lambda: S.sample(6))
+            if ok:
+                sg, sp = B.gsps(L)
+                good = all(O.group_contains(cg, g) == p for g, p in zip(sg, sp))
+                rec.check("live.sample", good, case, len(G.gens) > 0, observed=_show(sg, sp))
+            ok, DM = rec.attempt("live.dm", case, lambda: S.density_matrix)
+            if ok:
+                dg, dp, dc = B.np(DM.gs).reshape(-1, 2 * N), B.ph(DM.ps), B.cnp(DM.cs)
+                rec.check("live.dm", len(dg) == 2 ** len(G.gens) and O.close(O.dense_poly(dg, dp, dc), G.rho()), case, True)
+        live.walk(rec, B, rng, N, int(rng.integers(4, 14)), query)
